@@ -57,7 +57,7 @@ let handle = function
       let hs = Stdlib.List.init n (fun i -> nat_of_int i) in
       let s = run hs (subs = "1") (sl dial_of (split ',' dials)) (sl verif_of (split ',' verifs))
                 (sl control_of (split ',' controls)) (n_of_dec end_) in
-      Printf.sprintf "tie=%d fuel=%d [%s]" (if s.tie then 1 else 0) (if s.fuel_out then 1 else 0)
+      Printf.sprintf "tie=%d fuel=%d [%s]" (if s.tie then 1 else 0) (if s.fuel_out || s.adv_out then 1 else 0)
         (Stdlib.String.concat "," (sl ev_json (Stdlib.List.rev s.trace)))
   | _ -> "bad-request"
 let () = main_loop handle
